@@ -94,6 +94,42 @@ def _arms(fi):
     return out
 
 
+def _inline_self_temps(fnode, expr, depth=0):
+    """the expression with every local name replaced by its value where the name is bound exactly once in the function and that
+    value is built from attributes / methods of self alone (`factor = self.conversion_factor() * self.efficiency`): such a
+    temporary is not something read from the net"""
+    import copy
+    if depth > 4:
+        return expr
+    binds = {}
+    for n in ast.walk(fnode):
+        tg = []
+        if isinstance(n, ast.Assign):
+            tg = [t for t in n.targets]
+        elif isinstance(n, (ast.AugAssign, ast.AnnAssign, ast.For, ast.NamedExpr)):
+            tg = [n.target]
+        elif isinstance(n, (ast.With,)):
+            tg = [i.optional_vars for i in n.items if i.optional_vars is not None]
+        for t in tg:
+            for x in ast.walk(t):
+                if isinstance(x, ast.Name):
+                    binds.setdefault(x.id, []).append(n)
+
+    def self_only(v):
+        return all(x.id == "self" for x in ast.walk(v) if isinstance(x, ast.Name)) and not any(isinstance(x, ast.Subscript) for x in ast.walk(v))
+
+    class T(ast.NodeTransformer):
+        def visit_Name(self, node):
+            b = binds.get(node.id, [])
+            if isinstance(node.ctx, ast.Load) and len(b) == 1 and isinstance(b[0], ast.Assign) and len(b[0].targets) == 1 \
+                    and isinstance(b[0].targets[0], ast.Name):
+                v = _inline_self_temps(fnode, copy.deepcopy(b[0].value), depth + 1)
+                if self_only(v):
+                    return ast.copy_location(v, node)
+            return node
+    return ast.fix_missing_locations(T().visit(copy.deepcopy(expr)))
+
+
 def r20_1(run):
     ix = run.index
     p2g, g2p, g2g = _cls(ix, "P2GControlMultiEnergy"), _cls(ix, "G2PControlMultiEnergy"), _cls(ix, "GasToGasConversion")
@@ -122,7 +158,7 @@ def r20_1(run):
         if ok:
             ki = KInterp(ix, {}, {}, free_syms=True, dyn_cls=ci)
             st = {"fi": cs, "env": {"self": PyVal("<cls>")}, "G": phys.A.BExpr.true(), "loopvars": set(), "kernel": None, "mask": None, "returned": False}
-            val = phys.tonum(ki.eval(final[0].value, st))
+            val = phys.tonum(ki.eval(_inline_self_temps(cs.node, final[0].value), st))
             fac = _method_value(ix, ci, [m for m in ci.methods if m.startswith("conversion_factor")][0])
             # the value read from the net is the one free symbol of the expression that is not an attribute of self
             free = sorted({a for gd, p_ in val.cases for a in p_.symbols() if not (len(a) >= 2 and a[1] == "self")}, key=repr)
@@ -142,7 +178,7 @@ def r20_1(run):
         ok = len(asg) == 1
         run.ob("G2P|%s-assigned-once" % attr, ok, "self.%s is assigned once" % attr, run.where(cs, cs.node))
         if ok:
-            val = phys.tonum(ki.eval(asg[0].value, st))
+            val = phys.tonum(ki.eval(_inline_self_temps(cs.node, asg[0].value), st))
             free = sorted({a for gd, p_ in val.cases for a in p_.symbols() if not (len(a) >= 2 and a[1] == "self")}, key=repr)
             if len(free) != 1:
                 raise AnalysisError("G2P.control_step: expected one value read from the net in %s" % val)
